@@ -348,6 +348,9 @@ func (s *MapNamespace) SetAttribute(node *ua.NodeID, attr ua.AttributeID, val *u
 	// we would normally look up the node in our actual address space, but since that's dumb, we're just
 	// going to use the node id directly to look it up from our data map.
 	if attr == ua.AttributeIDValue {
+		if val == nil || val.Value == nil {
+			return ua.StatusBadTypeMismatch
+		}
 		v := val.Value.Value()
 		s.Data[key] = v
 	}
